@@ -224,7 +224,8 @@ Definition read_file (s : fs) (p : path) : option (list N) :=
    readfile(...).rstrip("\n"); contents / environment / ebuild are data sources (raw bytes) *)
 Definition vdb_keys (pf : str) : list (str * bool) :=
   map (fun k => (s2l k, true))
-      ["DESCRIPTION"%bs; "SLOT"%bs; "EAPI"%bs; "KEYWORDS"%bs; "RDEPEND"%bs; "USE"%bs; "IUSE"%bs; "repository"%bs]
+      ["DESCRIPTION"%bs; "SLOT"%bs; "EAPI"%bs; "KEYWORDS"%bs; "RDEPEND"%bs; "USE"%bs; "IUSE"%bs; "repository"%bs;
+       "COUNTER"%bs; "PKGMANAGER"%bs]
   ++ [(CONTENTS, false); (s2l "environment.bz2"%bs, false); (pf ++ EBUILD, false)].
 Definition read_key (s : fs) (d : path) (k : str * bool) : val :=
   match read_file s (d ++ [fst k]) with
